@@ -121,6 +121,60 @@ def check_lookback(P, R, rid, what=('params', 'hooks')):
     return f, pushes
 
 
+def _injective_key(e, params):
+    """True: `e` is a composition of all `params` that distinct argument tuples cannot share; False: it is computed from them through a call or
+    drops one; None: unrecognised."""
+    leaves = []          # ('p', name) | ('c', text)
+
+    def flat(x):
+        if isinstance(x, ast.JoinedStr):
+            for v in x.values:
+                if isinstance(v, ast.Constant):
+                    leaves.append(('c', str(v.value)))
+                elif isinstance(v, ast.FormattedValue) and v.format_spec is None and isinstance(v.value, ast.Name) and v.value.id in params:
+                    leaves.append(('p', v.value.id))
+                elif isinstance(v, ast.FormattedValue):
+                    return flat_other(v.value)
+            return True
+        if isinstance(x, ast.BinOp) and isinstance(x.op, ast.Add):
+            return flat(x.left) and flat(x.right)
+        if isinstance(x, ast.Constant) and isinstance(x.value, str):
+            leaves.append(('c', x.value))
+            return True
+        if isinstance(x, ast.Name) and x.id in params:
+            leaves.append(('p', x.id))
+            return True
+        if isinstance(x, ast.Call) and isinstance(x.func, ast.Name) and x.func.id in ('str', 'repr') and len(x.args) == 1:
+            return flat(x.args[0])
+        return flat_other(x)
+
+    def flat_other(x):
+        leaves.append(('x', x))
+        return True
+
+    if isinstance(e, ast.Tuple):
+        names = [el.id for el in e.elts if isinstance(el, ast.Name)]
+        if len(names) == len(e.elts):
+            return all(p_ in names for p_ in params)
+        if any(isinstance(n_, ast.Call) for n_ in ast.walk(e)):
+            return False
+        return None
+    flat(e)
+    if any(k == 'x' for k, _ in leaves):
+        others = [v for k, v in leaves if k == 'x']
+        if any(isinstance(n_, (ast.Call, ast.Subscript)) for o in others for n_ in ast.walk(o)):
+            return False
+        return None
+    seen = [v for k, v in leaves if k == 'p']
+    if not all(p_ in seen for p_ in params):
+        return False
+    # two adjacent parameters without a literal between them can trade characters
+    for a_, b_ in zip(leaves, leaves[1:]):
+        if a_[0] == 'p' and b_[0] == 'p':
+            return False
+    return True
+
+
 def check(P, R):
     R.rule('C01.a', 'rejected values never reach a handler', floor=8)
     R.rule('C01.b', 'index string and child list change together', floor=5)
@@ -239,6 +293,40 @@ def check(P, R):
         R.ob('C01.a', h, rets[0] if rets else h.node, ok, text=f'handler#{i + 1}: (converted tmp.group(), tmp.end(), ...)', detail='' if ok else
              'the handler does not return the matched text and the match end', key_extra=f'h{i}:ret')
 
+    # the handler cache of make_filter is keyed by an injective encoding of (filter name, configuration)
+    cache_stores = [st for st in walk_shallow(mf.node) if isinstance(st, ast.Assign) and isinstance(st.targets[0], ast.Subscript)
+                    and dotted(st.targets[0].value) and dotted(st.targets[0].value).split('.')[0] in (mf.params[0], 'FilterFactory')]
+    cache_reads = [c for c in walk_shallow(mf.node) if isinstance(c, ast.Call) and call_attr(c) in ('get', '__getitem__') and c.args
+                   and any(dotted(c.func.value) == dotted(st.targets[0].value) for st in cache_stores)]
+    cache_reads += [x for x in walk_shallow(mf.node) if isinstance(x, ast.Subscript) and isinstance(x.ctx, ast.Load)
+                    and any(dotted(x.value) == dotted(st.targets[0].value) for st in cache_stores)]
+    fpar = [p_ for p_ in mf.params if p_ not in ('cls', 'self')]
+    for site in cache_stores + cache_reads:
+        if isinstance(site, ast.Assign):
+            kexpr, anchor = site.targets[0].slice, site
+        elif isinstance(site, ast.Call):
+            kexpr, anchor = site.args[0], site
+        else:
+            kexpr, anchor = site.slice, site
+        ns_ = mf.cfg.node_of_stmt(anchor)
+        if not ns_:
+            continue
+        full = T.expand(mf, kexpr, ns_[0], keep=tuple(fpar))
+        verdict = _injective_key(full, fpar)
+        if verdict is None:
+            # a leaf that is (part of) the result of a call is a computed value
+            for nm_ in [x for x in ast.walk(full) if isinstance(x, ast.Name) and x.id not in fpar]:
+                defs_ = mf.rd.at(ns_[0], nm_.id)
+                if defs_ and all(isinstance(getattr(d_.stmt, 'value', None), ast.Call) for d_ in defs_):
+                    verdict = False
+        if verdict is None:
+            R.undecided('C01.a', mf, anchor, 'make_filter cache key', f'`{short(full)}` is neither a literal composition of the parameters nor a computed value')
+            continue
+        R.ob('C01.a', mf, anchor, verdict, text=f'filter cache key `{short(full)}` determines (filter, configuration)', detail='' if verdict else
+             f'the process-wide handler cache is keyed by `{short(full)}`, which two different (filter, configuration) pairs can share: a wildcard then gets the '
+             f'handler (and converter) built for another filter - `<code:re(-?\\d+)>` after `<id:int>` delivers an int',
+             why='the value is converted by the filter of the rule the handler was registered under', key_extra='cache-key:' + type(site).__name__)
+
     # ---- b: IDX / children pairing
     check_idx_pairing(P, R, 'C01.b')
 
@@ -343,7 +431,26 @@ def check(P, R):
         if n.kind == 'test' and any(isinstance(s.ast, ast.Assign) and roles['kidx'] in [t.id for t in s.ast.targets if isinstance(t, ast.Name)]
                                     for s in T.succ_by_label(n, 'true') if s.kind == 'stmt'):
             lit_tests.append(n)
-    R.require(lit_tests, 'RadiDict.get: literal child selection (`kidx = ic`) not found')
+    # the same selection written as a search: `kidx = idx.find(route[i])`
+    finds = [c for c in walk_shallow(f.node) if isinstance(c, ast.Call) and call_attr(c) in ('find', 'index', 'rfind') and c.args
+             and src(c.func.value) == roles['idx']]
+    pre_any = any(isinstance(x, ast.Compare) and any(_is_token_name(f, y) for y in [x.left] + x.comparators) and roles['route'] in src(x) and isinstance(x.ops[0], (ast.In, ast.NotIn))
+                  for x in ast.walk(f.node))
+    for c in finds:
+        cn = g.node_of_stmt(c)[0] if g.node_of_stmt(c) else None
+        arg = c.args[0]
+        def _excl(t):
+            return any(compare_parts(p_) and compare_parts(p_)[1] is ast.NotEq and
+                       (_is_token_name(f, compare_parts(p_)[0]) or _is_token_name(f, compare_parts(p_)[2])) for p_ in bool_operands(t, ast.And))
+        guard = any(n.kind == 'test' and _excl(n.ast) and cn is not None and g.edge_dominates(n, 'true', cn) for n in g.nodes)
+        ife = enclosing(c, ast.IfExp)
+        guard = guard or (ife is not None and _excl(ife.test) and any(x is c for x in ast.walk(ife.body)))
+        ok = guard or pre_any
+        R.ob('C01.e', f, c, ok, text=f'literal child search `{short(c)}` excludes the marker', detail='' if ok else
+             'a request path character equal to the wildcard marker (CR) is found in the children index and selects the wildcard child as if '
+             'it were a literal child: the character is consumed as the node key and no value is bound',
+             why='the handler must be called with its named wildcards; CR is in the path alphabet')
+    R.require(lit_tests or finds, 'RadiDict.get: literal child selection (`kidx = ic`) not found')
     for n in lit_tests:
         parts = bool_operands(n.ast, ast.And)
         guard = any(compare_parts(p) and compare_parts(p)[1] is ast.NotEq and
